@@ -12,6 +12,7 @@ mod gen {
     pub mod decode;
     pub mod builder;
     pub mod reflect;
+    pub mod errors;
 }
 mod proj;
 mod dump;
